@@ -1,21 +1,178 @@
-"""CrossHair runner (filled in later)."""
+"""CrossHair runner: symbolic execution of the real Python modules of /repo/src/gufo/snmp (via contracts in /verif/py).
+
+A contract counts as *holds* only if CrossHair reports "Confirmed over all paths" for every postcondition of the
+function (path space exhausted inside the stated bounds) - never on "no counterexample found before timeout".
+Functions named `*_twin_must_fail` carry a deliberately wrong postcondition and must be REFUTED (vacuity guard).
+"""
+import ast
+import concurrent.futures
+import glob
+import os
+import re
+import subprocess
+import time
+
+from . import gen
+
+VERIF = gen.VERIF
+PYDIR = os.path.join(VERIF, "py")
+PY = "python3-vt"
+META_RE = re.compile(r"^#@\s+(?P<props>C\d\d(?:,C\d\d)*)\s+(?P<tier>quick|thorough)(?P<opts>(?:\s+[a-z_]+(?:=[^\s|]+)?)*)\s*\|\s*(?P<desc>.*)$")
+
+
+class Contract:
+    engine = "crosshair"
+    profile = "python"
+
+    def __init__(self, module, name, props, tier, opts, desc, file, lineno, end_lineno):
+        self.module, self.name, self.props, self.tier, self.opts, self.desc = module, name, props, tier, opts, desc
+        self.file, self.lineno, self.end_lineno = file, lineno, end_lineno
+
+    @property
+    def full(self):
+        return f"py::{self.module}::{self.name}"
+
+    @property
+    def required(self):
+        return "optional" not in self.opts
+
+    @property
+    def is_twin(self):
+        return self.name.endswith("_twin_must_fail")
 
 
 def discover():
-    return []
+    out = []
+    for path in sorted(glob.glob(os.path.join(PYDIR, "c[0-9][0-9]*.py"))):
+        module = os.path.splitext(os.path.basename(path))[0]
+        src = open(path).read()
+        lines = src.split("\n")
+        tree = ast.parse(src)
+        funcs = {n.lineno: n for n in tree.body if isinstance(n, ast.FunctionDef)}
+        for i, line in enumerate(lines):
+            m = META_RE.match(line)
+            if not m:
+                continue
+            fn = None
+            for j in range(i + 1, min(i + 6, len(lines)) + 1):
+                if (j + 1) in funcs:
+                    fn = funcs[j + 1]
+                    break
+            if fn is None:
+                raise SystemExit(f"{path}:{i+1}: #@ line without a function after it")
+            opts = {}
+            for tok in m.group("opts").split():
+                k, _, v = tok.partition("=")
+                opts[k] = v or True
+            out.append(Contract(module, fn.name, m.group("props").split(","), m.group("tier"), opts,
+                                m.group("desc").strip(), path, fn.lineno, fn.end_lineno))
+    return out
 
 
 def select(hs, prop, tier, only=None):
-    return []
+    sel = [h for h in hs if prop in h.props and (tier == "thorough" or h.tier == "quick")]
+    if only:
+        sel = [h for h in sel if any(o in h.full for o in only)]
+    return sel
+
+
+LINE_RE = re.compile(r"^(?P<file>[^:]+):(?P<line>\d+): (?P<kind>info|error): (?P<msg>.*)$")
+
+
+def _run_one(c, per_cond):
+    """Run CrossHair on one contract function."""
+    cmd = [PY, "-m", "crosshair", "check", "--per_condition_timeout", str(per_cond), "--report_all",
+           f"{c.module}.{c.name}"]
+    env = dict(os.environ, PYTHONPATH=PYDIR, VERIF_REPO=gen.REPO)
+    t0 = time.time()
+    try:
+        p = subprocess.run(cmd, cwd=PYDIR, env=env, stdout=subprocess.PIPE, stderr=subprocess.STDOUT, text=True,
+                           timeout=per_cond * 12 + 120)
+        out = p.stdout
+    except subprocess.TimeoutExpired as e:
+        out = (e.stdout or "") + "\nTIMEOUT"
+    dur = time.time() - t0
+    confirmed = refuted = unknown = 0
+    msg = ""
+    for line in out.split("\n"):
+        m = LINE_RE.match(line.strip())
+        if not m:
+            continue
+        if m.group("kind") == "error":
+            refuted += 1
+            msg = msg or m.group("msg")
+        elif "Confirmed over all paths" in m.group("msg"):
+            confirmed += 1
+        else:
+            unknown += 1
+            msg = msg or m.group("msg")
+    r = {"harness": c, "duration_s": round(dur, 2), "paths": None, "conditions_confirmed": confirmed,
+         "functions": [f"gufo.snmp (python) via {c.module}.{c.name}"]}
+    if c.is_twin:
+        if refuted:
+            r.update(status="confirmed", message=f"vacuity twin refuted as required: {msg}")
+        else:
+            r.update(status="unknown", message="vacuity twin was NOT refuted: " + (msg or out[-300:]))
+        return c.full, r
+    if refuted:
+        cex = None
+        m = re.search(r"when calling (\w+)\((.*)\)(?: \(which (returns|raises) .*\))?$", msg)
+        if m:
+            cex = {"function": m.group(1), "args": m.group(2)}
+        r.update(status="refuted", message=msg, cex=cex)
+    elif confirmed and not unknown and "TIMEOUT" not in out:
+        r.update(status="confirmed", message="Confirmed over all paths")
+    else:
+        r.update(status="unknown", message=msg or out[-400:])
+    return c.full, r
 
 
 def run(chs, tier, jobs, log):
-    return {}
+    per_cond = 90 if tier == "quick" else 900
+    log(f"[crosshair] {len(chs)} contracts, per-condition timeout {per_cond}s")
+    res = {}
+    with concurrent.futures.ThreadPoolExecutor(max_workers=max(1, min(jobs, 12))) as ex:
+        futs = [ex.submit(_run_one, c, int(c.opts.get("timeout", per_cond))) for c in chs]
+        for f in futs:
+            name, r = f.result()
+            res[name] = r
+    return res
+
+
+REPLAY_SNIPPET = r'''
+import sys, re, inspect
+sys.path.insert(0, {pydir!r})
+import {module} as M
+fn = getattr(M, {name!r})
+args = eval("(" + {args!r} + ",)", vars(M))
+sig = list(inspect.signature(fn).parameters)
+env = dict(vars(M)); env.update(dict(zip(sig, args)))
+try:
+    ret = fn(*args)
+except BaseException as e:
+    print("REPRODUCED raises", type(e).__name__); sys.exit(0)
+env["__return__"] = ret
+bad = []
+for line in (fn.__doc__ or "").split("\n"):
+    line = line.strip()
+    if line.startswith("post:"):
+        if not eval(line[5:].strip(), env):
+            bad.append(line)
+print("REPRODUCED " + "; ".join(bad) if bad else "NOT-REPRODUCED", "returns", repr(ret))
+'''
 
 
 def replay(h, f):
-    return {"reproduced": False}
+    cex = f.get("cex")
+    if not cex:
+        return {"reproduced": False, "why": "no counterexample call in CrossHair message"}
+    code = REPLAY_SNIPPET.format(pydir=PYDIR, module=h.module, name=cex["function"], args=cex["args"])
+    env = dict(os.environ, PYTHONPATH=PYDIR, VERIF_REPO=gen.REPO)
+    p = subprocess.run([PY, "-c", code], cwd=PYDIR, env=env, stdout=subprocess.PIPE, stderr=subprocess.STDOUT, text=True)
+    return {"reproduced": p.stdout.strip().startswith("REPRODUCED"), "output": p.stdout.strip()[-500:], "call": cex}
 
 
 def replay_by_name(name, cex):
-    return {"reproduced": False}
+    _, module, fn = name.split("::")
+    c = Contract(module, fn, [], "quick", {}, "", "", 0, 0)
+    return replay(c, {"cex": cex})
